@@ -700,6 +700,7 @@ func (e *Env) parse(ctx context.Context, query string) (stmts wire.PreparedState
 			err = fmt.Errorf("parser panicked: %v", r)
 		}
 	}()
+	defer func() { e.add(Event{Conn: id, K: "parse.end", Q: query}) }()
 	e.retainStr(ctx, "query", query)
 	out, ok := e.Cfg.Table.Lookup(query)
 	if !ok {
